@@ -158,6 +158,8 @@ def run(ctx):
         o.rule = 'R06k'
     leaf_lists_rule(ctx, 'R06g', 'SuperNet')
     accumulation_rule(ctx, 'R06f', 'SuperNet._get_single_cost', sgc)
+    from .c04 import call_site_rule
+    call_site_rule(ctx, 'R06f', 'SuperNet._get_single_cost', sgc)
     accumulation_rule(ctx, 'R06f', 'SuperNetCombiner.get_cost', gc, keep=KEEP)
     for p in returning(paths(repo, fwd)):
         if any(e.kind == 'loop0' for e in p.events):
